@@ -32,6 +32,11 @@ ITEM_HARNESS = {
     'types::SourceMapIndex::get_file': ['index_flatten'], 'types::SourceMapSection::get_sourcemap': ['index_flatten'], 'types::SourceMapIndex::get_section': ['index_flatten'],
     'hermes::SourceMapHermes::get_scope_for_token': ['hermes_scope'],
     'types::SourceMap::adjust_mappings::create_ranges': ['adjust', 'adjust_dups'], 'types::SourceMap::rewrite_with_mapping': ['rewrite'], 'decoder::decode_regular__tail': ['decode_document', 'roundtrip'],
+    'ram_bundle::IndexedRamBundle::parse': ['ram_bundle'], 'ram_bundle::IndexedRamBundle::get_module': ['ram_bundle'], 'ram_bundle::IndexedRamBundle::startup_code': ['ram_bundle'],
+    'ram_bundle::IndexedRamBundle::module_count': ['ram_bundle'], 'ram_bundle::is_ram_bundle_slice': ['ram_bundle'], 'ram_bundle::RamBundleModuleIter::next': ['ram_bundle'],
+    'ram_bundle::RamBundle::iter_modules': ['ram_bundle'], 'ram_bundle::RamBundle::get_module': ['ram_bundle'], 'ram_bundle::RamBundle::module_count': ['ram_bundle'],
+    'ram_bundle::RamBundle::startup_code': ['ram_bundle'], 'ram_bundle::RamBundle::parse_indexed_from_slice': ['ram_bundle'], 'ram_bundle::RamBundle::parse_indexed_from_vec': ['ram_bundle'],
+    'ram_bundle::ModuleEntry::is_empty': ['ram_bundle'], 'ram_bundle::RamBundleHeader::is_valid_magic': ['ram_bundle'], 'ram_bundle::RAM_BUNDLE_MAGIC': ['ram_bundle'],
     'decoder::decode_common': ['decode_document'], 'decoder::decode_index': ['index_flatten', 'decode_document'],
 }
 # property -> stand-ins that run on every check (parts of the property outside the verifier's reach so far)
